@@ -17,7 +17,7 @@
        the series of the map (name, type, sorted tags + s:source, value / member). *)
 From Coq Require Import Floats Uint63.
 From GS Require Export Base.Bytes Base.CorrLib Base.GoFloat Model.Lexer Model.Series
-  Model.Batching Model.Relay Model.InfluxEsc.
+  Model.Batching Model.Relay Model.InfluxEsc Model.InfluxLine Model.GraphiteLine.
 Local Open Scope N_scope.
 
 (* ---- oracle tables *)
@@ -225,14 +225,24 @@ Definition mk_event (o : evobs) : event :=
   | EVR => empty_event [] []
   end.
 
+(* parsed records *)
+Definition ss_eqb (a b : str * str) : bool := str_eqb (fst a) (fst b) && str_eqb (snd a) (snd b).
+Definition lp_eqb (a b : lp_rec) : bool :=
+  str_eqb (lp_name a) (lp_name b) && list_eqb ss_eqb (lp_tags a) (lp_tags b)
+  && perm_eqb ss_eqb (lp_fields a) (lp_fields b)       (* histogram buckets: Go map order *)
+  && (lp_ts a =? lp_ts b)%Z.
+Definition gl_eqb (a b : gl_rec) : bool :=
+  str_eqb (gl_name a) (gl_name b) && list_eqb ss_eqb (gl_tags a) (gl_tags b)
+  && str_eqb (gl_value a) (gl_value b) && (gl_ts a =? gl_ts b)%Z.
+
 (* ---- cases *)
 Inductive bcase :=
 | BRelay (ps : N) (dt f2 : bool) (obs : list (list str)) (pft : pftab) (lexed : list lexobs)
-| BInflux (pb : N) (now : Z) (obs : list (list item))
+| BInflux (pb : N) (lossy : bool) (now : Z) (bodies : list str)     (* request bodies after gunzip *)
 | BDatadog (pb : N) (obs : list (list item))
 | BCloudwatch (obs : list (list item))
 | BOtlp (bs : N) (obs : list (list item))
-| BGraphite (cfg : gcfg) (now : Z) (obs : list item)
+| BGraphite (cfg : gcfg) (lossy : bool) (now : Z) (raw : str)       (* the TCP stream *)
 | BStdout (now : Z) (obs : list item)
 | BEvent (src : evobs) (wire : str) (lexed : evobs)
 | BNewRelic (pb mode : N) (f3 : bool) (prefix : str) (now interval : Z) (pft : pftab) (obs : list (list item)).
@@ -245,9 +255,15 @@ Definition check_b (mk : mask) (m : fmap) (t : ptab) (b : bcase) : bool :=
       perm_eqb str_eqb lines (relay_lines (o_f t) dt m)
       && list_eqb (list_eqb str_eqb) (relay_batches ps lines) obs
       && (if dt then true else roundtrip f2 pft m lines lexed)
-  | BInflux pb now obs =>
-      items_perm (concat obs) (influx_items (o_g t) (o_s t) mk now m)
-      && same_sizes obs (influx_payloads (o_g t) (o_s t) pb mk now m)
+  | BInflux pb lossy now bodies =>
+      (* the Gallina line-protocol reader on the captured bytes (strict unless the stream is F4 / F5) *)
+      let batches := map (split_lines []) bodies in
+      match all_some (map (influx_parse_gen (negb lossy)) (concat batches)) with
+      | None => false
+      | Some recs =>
+          perm_eqb lp_eqb recs (map (lp_of now) (influx_pres (o_g t) (o_s t) mk m))
+          && same_sizes batches (influx_payloads (o_g t) (o_s t) pb mk now m)
+      end
   | BDatadog pb obs =>
       items_perm (concat obs) (concat (dd_groups (o_s t) mk m))
       && dd_structure pb obs (dd_groups (o_s t) mk m)
@@ -260,7 +276,13 @@ Definition check_b (mk : mask) (m : fmap) (t : ptab) (b : bcase) : bool :=
   | BOtlp bs obs =>
       items_perm (concat obs) (otlp_items (o_s t) mk m)
       && same_sizes obs (otlp_payloads (o_s t) bs mk m)
-  | BGraphite cfg now obs => items_perm obs (graphite_payload (o_f t) (o_s t) cfg mk now m)
+  | BGraphite cfg lossy now raw =>
+      let lines := split_lines [] raw in
+      perm_eqb str_eqb lines (map (gr_print (o_f t) cfg now) (graphite_entries (o_s t) cfg mk m))
+      && match all_some (map (graphite_parse_gen (negb lossy)) lines) with
+         | None => false
+         | Some recs => perm_eqb gl_eqb recs (map (gl_of (o_f t) cfg now) (graphite_entries (o_s t) cfg mk m))
+         end
   | BStdout now obs => items_perm obs (stdout_payload (o_f t) (o_s t) mk now m)
   | BEvent src wire lexed =>
       let e := mk_event src in
@@ -285,12 +307,12 @@ Definition marker (s : str) : list item := [MkItem s [] [] [] []].
 Definition explain_b (mk : mask) (m : fmap) (t : ptab) (b : bcase) : list (list item) :=
   match b with
   | BRelay ps dt _ _ _ _ => marker [114;101;108;97;121] :: lines_items (relay_payloads (o_f t) ps dt m)
-  | BInflux pb now _ => marker [105;110;102;108;117;120] :: influx_payloads (o_g t) (o_s t) pb mk now m
+  | BInflux pb _ now _ => marker [105;110;102;108;117;120] :: influx_payloads (o_g t) (o_s t) pb mk now m
   | BDatadog pb _ => marker [100;97;116;97;100;111;103] :: datadog_payloads (o_s t) pb mk m
   | BCloudwatch _ => marker [99;108;111;117;100;119;97;116;99;104]
                      :: match cloudwatch_payloads (o_s t) mk m with Some b => b | None => [] end
   | BOtlp bs _ => marker [111;116;108;112] :: otlp_payloads (o_s t) bs mk m
-  | BGraphite cfg now _ => [marker [103;114;97;112;104;105;116;101]; graphite_payload (o_f t) (o_s t) cfg mk now m]
+  | BGraphite cfg _ now _ => [marker [103;114;97;112;104;105;116;101]; graphite_payload (o_f t) (o_s t) cfg mk now m]
   | BStdout now _ => [marker [115;116;100;111;117;116]; stdout_payload (o_f t) (o_s t) mk now m]
   | BEvent src _ _ => [marker [101;118;101;110;116]; [line_item (relay_event (mk_event src))]]
   | BNewRelic pb mode _ prefix now interval pft _ =>
